@@ -1,13 +1,28 @@
 /-
-  Certificate obligations, part 4 of 8 of the `patched` client system (kernel evaluation; one module per
-  part so that lake checks them in parallel). Assembled in `Lemmas/CliCert.lean`.
+  Certificate obligations, parts 32..39 of 64 of the `patched` client system (kernel evaluation; 8 modules
+  so that lake checks them in parallel; small parts keep the kernel's memory small).
+  Assembled in `Lemmas/CliCert.lean`.
 -/
 import KmipModel.Model.CliConn
 import KmipModel.Gen.CertCliConn
 namespace Kmip.CliCert
 open Kmip.CliLts Kmip.CliConn Kmip.Gen.CertCliConn
 
-theorem paClosed4 : partClosed (sys patched) codec certPatched paP4 = true := by decide +kernel
-theorem paSafe4 : partSafe codec (badFull patched) paP4 = true := by decide +kernel
+theorem paClosed32 : partClosed (sys patched) codec certPatched paP32 = true := by decide +kernel
+theorem paSafe32 : partSafe codec (badFull patched) paP32 = true := by decide +kernel
+theorem paClosed33 : partClosed (sys patched) codec certPatched paP33 = true := by decide +kernel
+theorem paSafe33 : partSafe codec (badFull patched) paP33 = true := by decide +kernel
+theorem paClosed34 : partClosed (sys patched) codec certPatched paP34 = true := by decide +kernel
+theorem paSafe34 : partSafe codec (badFull patched) paP34 = true := by decide +kernel
+theorem paClosed35 : partClosed (sys patched) codec certPatched paP35 = true := by decide +kernel
+theorem paSafe35 : partSafe codec (badFull patched) paP35 = true := by decide +kernel
+theorem paClosed36 : partClosed (sys patched) codec certPatched paP36 = true := by decide +kernel
+theorem paSafe36 : partSafe codec (badFull patched) paP36 = true := by decide +kernel
+theorem paClosed37 : partClosed (sys patched) codec certPatched paP37 = true := by decide +kernel
+theorem paSafe37 : partSafe codec (badFull patched) paP37 = true := by decide +kernel
+theorem paClosed38 : partClosed (sys patched) codec certPatched paP38 = true := by decide +kernel
+theorem paSafe38 : partSafe codec (badFull patched) paP38 = true := by decide +kernel
+theorem paClosed39 : partClosed (sys patched) codec certPatched paP39 = true := by decide +kernel
+theorem paSafe39 : partSafe codec (badFull patched) paP39 = true := by decide +kernel
 
 end Kmip.CliCert
